@@ -77,6 +77,16 @@ var historyPool = []string{
 	"Str.patch({shout: 1})", "Int.assign('zzz, 1)", "Str.del('uc)", "Obj.digest([[\"q\", 1]])",
 }
 
+func init() {
+	for _, b := range []string{"Int", "Str", "Arr", "Obj", "Map", "Float", "Nil", "Range", "Func", "Iter", "Either", "Kernel", "Iterable", "Comparable", "Err", "BaseObj", "JSON", "Num"} {
+		for _, f := range []string{"{|| 1}(**%s, **{zzz9: 5})", "kf := {|x: 0| x}; kf(**%s, **{zzz9: 1}, **{zzz8: 2})", "{}.bear(**%s, **{zzz9: 1})", "{**%s, **{zzz9: 1}}.zzz9", "%%{**%s, **{zzz9: 1}}.len",
+			"%s.bear({zzz9: 1}).zzz9", "[1]@{|x| 1}(**%s, **{zzz9: 1})"} {
+			historyPool = append(historyPool, fmt.Sprintf(f, b))
+		}
+	}
+	probePool = append(probePool, "3.zzz9", "Int['zzz9]", "\"a\".zzz9", "{}.zzz9", "[].zzz9", "nil.zzz8", "{|x: 0| \\_}(**{zzz9: 1})")
+}
+
 var probePool = []string{
 	// names a history may have defined
 	"average(10, 2)", "x", "f(1)", "total", "name", "secret.key", "_private", "Int2", "deep(1)", "merged",
@@ -145,6 +155,47 @@ func runTestDir(programs []string) string {
 	return norm.Replace(fmt.Sprintf("exit=%d\nstdout=%s\nstderr=%s", code, stdout, string(eb)))
 }
 
+// runTestDirs: every history program lives in its own directory hNN beside its own helper.pangaea, the probe in the
+// directory `probe` beside its helper; all of them refer to "./helper". Returns what the run printed from the probe on.
+func runTestDirs(history []string, probe string) string {
+	dir, err := os.MkdirTemp("", "c19d")
+	if err != nil {
+		panic(err)
+	}
+	defer os.RemoveAll(dir)
+	write := func(rel, content string) {
+		os.MkdirAll(filepath.Dir(filepath.Join(dir, rel)), 0o755)
+		os.WriteFile(filepath.Join(dir, rel), []byte(content), 0o644)
+	}
+	for i, h := range history {
+		write(fmt.Sprintf("h%02d/helper.pangaea", i), fmt.Sprintf("where := \"history dir %d\"\nvalue := %d\nfail := {|| %d // 0}\n", i, i, i))
+		write(fmt.Sprintf("h%02d/main.pangaea", i), h)
+	}
+	write("probe/helper.pangaea", "where := \"probe dir\"\nvalue := 1000\nfail := {|| 1000 // 0}\n")
+	write("probe/main.pangaea", probe)
+	errFile, _ := os.CreateTemp("", "c19err")
+	defer os.Remove(errFile.Name())
+	saved := os.Stderr
+	os.Stderr = errFile
+	out := &bytes.Buffer{}
+	code := runscript.RunTest(dir, strings.NewReader(""), out)
+	os.Stderr = saved
+	errFile.Close()
+	eb, _ := os.ReadFile(errFile.Name())
+	stdout := out.String()
+	if i := strings.Index(stdout, "run:  "+filepath.Join(dir, "probe", "helper.pangaea")); i >= 0 {
+		stdout = stdout[i:]
+	} else {
+		stdout = "<last file was not run>"
+	}
+	return strings.ReplaceAll(fmt.Sprintf("exit=%d\nstdout=%s\nstderr=%s", code, stdout, string(eb)), dir, "<dir>")
+}
+
+var dirHistoryPool = []string{"import(\"./helper\").where.p", "invite!(\"./helper\")\nwhere.p", "h := import(\"./helper\")\n(h.value + 1).p", "1.p", "import(\"./helper\")['where].p\nimport(\"./helper\").value.p",
+	"1.try.{|x| import(\"./helper\").fail()}.err.msg.p", "1.try.{|x| import(\"./nosuchfile\")}.err?.p", "\"where\".p"}
+var dirProbePool = []string{"import(\"./helper\").where.p", "invite!(\"./helper\")\nwhere.p", "import(\"./helper\").value.p", "import(\"./helper\").fail()", "import(\"./nosuchfile\")", "where.p", "value",
+	"h := import(\"./helper\")\nh.fail.S.p"}
+
 // dropOuterFrames removes the stack frames of the wrapping program of the eval embedding (its line
 // numbers depend on the length of the history by construction); the frames of the probe itself stay.
 func dropOuterFrames(s string) string {
@@ -187,6 +238,8 @@ func workerMain() {
 		switch r.Embedding {
 		case "runtest":
 			res = runTestDir([]string{r.Probe})
+		case "runtest-dirs":
+			res = runTestDirs(nil, r.Probe)
 		case "eval":
 			res = dropOuterFrames(playground(in, evalProgram(nil, r.Probe)))
 		default:
@@ -273,6 +326,8 @@ func judge(c *Case) (sig, detail string, err error) {
 	case "runtest":
 		// `pangaea test` stops at the first failing file: only histories of succeeding programs reach the probe
 		got = runTestDir(append(append([]string{}, c.History...), c.Probe))
+	case "runtest-dirs":
+		got = runTestDirs(c.History, c.Probe)
 	case "eval":
 		in := interp.New()
 		got = dropOuterFrames(playground(in, evalProgram(c.History, c.Probe)))
@@ -360,6 +415,30 @@ func TestHistories(t *testing.T) {
 				return map[string]any{"embedding": c.Embedding, "history": c.History, "probe": c.Probe}
 			})
 		}
+		if sig != "" {
+			vt.Fail(rt, sig, detail, c)
+		}
+	})
+}
+
+// TestImportingDirectories: `pangaea test` over several directories whose files all refer to "./helper".
+func TestImportingDirectories(t *testing.T) {
+	vt.Check(t, vt.N(60, 4000), func(rt *rapid.T) {
+		c := Case{Embedding: "runtest-dirs"}
+		for n := rapid.IntRange(1, 4).Draw(rt, "n"); n > 0; n-- {
+			c.History = append(c.History, rapid.SampledFrom(dirHistoryPool).Draw(rt, "h"))
+		}
+		c.Probe = rapid.SampledFrom(dirProbePool).Draw(rt, "probe")
+		sig, detail, err := judge(&c)
+		if err != nil {
+			vt.Incomplete(err.Error())
+			rt.Skip("worker problem")
+		}
+		vt.Eval()
+		vt.Class("embedding runtest-dirs")
+		vt.NonTrivial(c.Embedding+strings.Join(c.History, "\x00")+c.Probe, func() any {
+			return map[string]any{"embedding": c.Embedding, "history": c.History, "probe": c.Probe}
+		})
 		if sig != "" {
 			vt.Fail(rt, sig, detail, c)
 		}
